@@ -3,6 +3,7 @@
 
 pub mod engine_s;
 pub mod explore;
+pub mod gsupport;
 pub mod json;
 pub mod model;
 pub mod obs;
